@@ -154,6 +154,74 @@ def rule_traps(ck, facts):
     ck.setcount("trapping_instruction_sites", n)
 
 
+def rule_limits(ck, facts):
+    """size limits on type-level tuples/records that the type checker enforces must be the ones the MIR generator
+    relies on: a comparison of a `len()` of a list of types with a small constant defines a boundary (largest size
+    on the accepting side); boundaries that differ by one between the two modules are an off-by-one between
+    'accepted' and 'handled'."""
+    R = "C03.limits"
+    ck.rule(R, "every comparison of the length of a list of types with a small constant in the type checker and in the MIR generator defines a boundary; boundaries of the two modules that are within 1 of each other must be equal")
+    from ..cfg import DefIndex
+    from ..facts import const_int, callee_full
+
+    lang = facts.crate(roles.LANG)
+    gates = []
+    for f in lang.fns:
+        mod = "typing" if "::compiler::typing" in f.path else "mirgen" if "::compiler::mirgen::Context" in f.path or f.short.startswith("compiler::mirgen::") and "::convert_" not in f.path and "::recursecheck" not in f.path and "::pattern_destructor" not in f.path else None
+        if mod is None or f.kind == "promoted":
+            continue
+        di = None
+        for b, s in f.all_stmts():
+            if s[KIND] != "a" or s[5][0] != "bin" or s[5][1] not in ("gt", "ge", "lt", "le") or s[5][4] != "usize":
+                continue
+            a, c = s[5][2], s[5][3]
+            op = s[5][1]
+            k = const_int(c)
+            x = a
+            if k is None:
+                k = const_int(a)
+                x = c
+                op = {"gt": "lt", "lt": "gt", "ge": "le", "le": "ge"}[op]
+            if k is None or not (2 <= k <= 4096):
+                continue
+            di = di or DefIndex(f)
+            r = di.resolve(x)
+            is_len = False
+            if r[0] == "call":
+                cn = callee(r[1]) or ""
+                full = callee_full(r[1]) or ""
+                is_len = cn.endswith("::len") and any(t in full for t in ("TypeNodeId", "RecordTypeField"))
+            if not is_len and x[0] in ("cp", "mv") and not x[1][1]:
+                # a local named like a length (`tuple_len`, `arity`), possibly through one copy
+                names = f.dbg_names()
+                l = x[1][0]
+                d = di.single_def(l)
+                cand = [l] + ([d[2][5][1][1][0]] if d and d[1] is not None and d[2][5][0] == "use" and d[2][5][1][0] in ("cp", "mv") and not d[2][5][1][1][1] else [])
+                is_len = any(any(w in names.get(c, "") for w in ("len", "arity")) for c in cand)
+            if not is_len:
+                continue
+            boundary = k if op in ("gt", "le") else k - 1
+            gates.append((mod, f, boundary, f.where(s), "%s %d" % (op, k)))
+    ck.floor(R, "type_size_gates", len(gates), 4)
+    ty = [g for g in gates if g[0] == "typing"]
+    mg = [g for g in gates if g[0] == "mirgen"]
+    reported = set()
+    for m in mg:
+        near = [t for t in ty if abs(t[2] - m[2]) <= 1]
+        if not near:
+            continue
+        root = m[1].root.split("::", 1)[1]
+        if all(t[2] == m[2] for t in near):
+            ck.ok(R, "gate|%s|%d" % (root, m[2]), {"mirgen": "%s (%s)" % (root, m[4]), "typing": sorted({"%s" % t[4] for t in near})})
+        else:
+            t = [t for t in near if t[2] != m[2]][0]
+            key = "gate|%s" % root
+            if key in reported:
+                continue
+            reported.add(key)
+            ck.bad(R, key, "%s handles lists of types up to length %d (`len %s`) while the type checker (%s, `len %s`) accepts up to %d: a program at the boundary is accepted by the type checker and then not handled by the generator" % (m[1].short, m[2], m[4], t[1].short.split("::")[-1], t[4], t[2]), m[3])
+
+
 def run(ck, facts, tier):
     cg = CallGraph(facts, ["mimium_lang", "state_tree", "mimium_scheduler", "mimium_audiodriver"])
     R = "C03.belief"
@@ -167,6 +235,7 @@ def run(ck, facts, tier):
     if anchors:
         c01_bounds.run(ck, facts, cg, anchors, tier, "C01", literal=False)
     rule_traps(ck, facts)
+    rule_limits(ck, facts)
     c03_unsafe.run(ck, facts, cg, tier)
     ck.not_decided("absence of index/overflow/division panics (compiler-inserted asserts are counted in the evidence only)")
     ck.not_decided("termination of user programs; 'dsp yields exactly the declared number of words' (run-time stack discipline)")
